@@ -10,7 +10,7 @@
    extracted from this file and compares the bytes with the binary's output, for every whitespace configuration. *)
 From Coq Require Import List Ascii String Bool Arith.
 Import ListNotations.
-From SV Require Import Lex LexRender Expr Parens.
+From SV Require Import Lex LexRender Expr Parens Quote QuoteMore Number.
 Notation tok := Lex.tok (only parsing).
 
 Inductive exp :=
@@ -95,7 +95,7 @@ with nels (e : els) : els :=
 Definition nprog := map nstmt.
 
 (* ---------------- print: the tokens the formatter writes ---------------- *)
-Record cfg0 := { windows0 : bool; spaces0 : bool; width0 : nat }.
+Record cfg0 := { windows0 : bool; spaces0 : bool; width0 : nat; style0 : QuoteMore.style }.
 Definition kw (s : string) : tok := TSym (str s).
 Definition sp : tok := TWs [SP].
 Definition eol (c : cfg0) : tok := TWs (if windows0 c then [CR; LF] else [LF]).
@@ -119,10 +119,17 @@ Fixpoint commas (l : list (list tok)) : list tok :=
   | [x] => x
   | x :: r => x ++ kw "," :: sp :: commas r
   end.
+(* a quoted string is written with the quote QuoteMore.choose picks for its body, the body rewritten for that quote
+   (general.rs format_token / get_quote_to_use: the models of C04 and C11); a number through Number.number_rewrite *)
+Definition qkind_of (q : Quote.quote) : qkind := match q with QS => QSingle | QD => QDouble end.
+Definition pstr (st : QuoteMore.style) (body : bytes) : tok :=
+  let q := QuoteMore.choose st body in TStr (qkind_of q) 0 (Quote.rewrite q body).
+Section PExp.
+Variable st : QuoteMore.style.
 Fixpoint pexp (e : exp) : list tok :=
   match e with
   | ENil => [kw "nil"] | ETrue => [kw "true"] | EFalse => [kw "false"] | EVararg => [kw "..."]
-  | ENum s => [TNum s] | EStr s => [TStr QDouble 0 s] | EName n => [TIdent n]
+  | ENum s => [TNum (Number.number_rewrite s)] | EStr s => [pstr st s] | EName n => [TIdent n]
   | EField p n => pexp p ++ [kw "."; TIdent n]
   | EIndex p k => pexp p ++ kw "[" :: pexp k ++ [kw "]"]
   | ECall f args => pexp f ++ kw "(" :: commas (map pexp args) ++ [kw ")"]
@@ -137,6 +144,7 @@ Fixpoint pexp (e : exp) : list tok :=
   | FKey k x => kw "[" :: pexp k ++ kw "]" :: sp :: kw "=" :: sp :: pexp x
   end.
 Definition pexps (es : list exp) : list tok := commas (map pexp es).
+End PExp.
 Definition pnames (ns : list bytes) : list tok := commas (map (fun n => [TIdent n]) ns).
 Definition pparams (ps : list bytes) (va : bool) : list tok :=
   kw "(" :: commas (map (fun n => [TIdent n]) ps ++ (if va then [[kw "..."]] else [])) ++ [kw ")"].
@@ -145,6 +153,8 @@ Fixpoint dotted (p : list bytes) : list tok :=
 
 Section Print.
 Variable c : cfg0.
+Notation pexp := (pexp (style0 c)).
+Notation pexps := (pexps (style0 c)).
 (* one statement per line: indentation, the statement, the line ending.
    The lines of a block are written with map / concat so that the unfolding equations hold by computation. *)
 Fixpoint pstmt (d : nat) (s : stmt) {struct s} : list tok :=
